@@ -2,11 +2,11 @@ module verif/harness
 
 go 1.23
 
-require github.com/casbin/casbin/v2 v2.0.0
-
 require (
-	github.com/bmatcuk/doublestar/v4 v4.6.1 // indirect
-	github.com/casbin/govaluate v1.3.0 // indirect
+	github.com/casbin/casbin/v2 v2.0.0
+	github.com/casbin/govaluate v1.3.0
 )
+
+require github.com/bmatcuk/doublestar/v4 v4.6.1 // indirect
 
 replace github.com/casbin/casbin/v2 => /repo
